@@ -39,6 +39,7 @@ def gen_case(rng, tier):
         c["energy"] = [str(rng.dyadic()) for _ in c["rows"]]
         c["offset"] = str(rng.dyadic())
         c["inplace"] = rng.random() < 0.5
+        c["future"] = c["inplace"] and rng.random() < 0.6   # inplace=False on a pending set blocks (it copies)
         return c
     if kind.startswith(('bqm', 'view', 'ising')):
         c["dtype"] = rng.choice(['f64', 'f64', 'f32', 'obj'])
@@ -64,8 +65,12 @@ def gen_case(rng, tier):
                 elif r < 0.8 and len(labels) > 1:
                     u, v = rng.sample(labels, 2)
                     ops.append(["set_quadratic", u, v, b])
-                elif r < 0.9:
+                elif r < 0.86:
                     ops.append(["offset", b])
+                elif r < 0.93 and kind == 'view_write':
+                    k = rng.randint(1, len(labels))
+                    ops.append(["add_eq", [[l, str(rng.randint(-3, 3) * 2)] for l in rng.sample(labels, k)],
+                                str(rng.choice([2, 4])), str(rng.randint(-2, 2) * 2)])
                 else:
                     ops.append(["scale", str(rng.choice([2, -1, Fraction(1, 2), 3]))])
             c["ops"] = ops
@@ -148,14 +153,23 @@ def run_case(c):
         other = 'SPIN' if c["vartype"] == 'BINARY' else 'BINARY'
         off = float(F(c["offset"]))
         snap = ss.record.copy()
-        new = ss.change_vartype(other, energy_offset=off, inplace=c["inplace"])
+        if c.get("future") and c["inplace"]:
+            # a not-yet-resolved sample set: the conversion is captured and applied at resolution
+            import concurrent.futures
+            fut = concurrent.futures.Future()
+            pending = dimod.SampleSet.from_future(fut)
+            new = pending.change_vartype(other, energy_offset=off, inplace=c["inplace"])
+            fut.set_result(ss.copy())
+            feats["future"] = True
+        else:
+            new = ss.change_vartype(other, energy_offset=off, inplace=c["inplace"])
         want_rows = (2 * rows - 1) if other == 'SPIN' else (rows + 1) // 2
         ok = (new.vartype is gen.VT[other] and list(new.variables) == labels
               and np.array_equal(np.asarray(new.record.sample).reshape(want_rows.shape), want_rows)
               and [F(e) for e in new.record.energy] == [F(e) + F(off) for e in en])
         if not ok:
             py_fail = "SampleSet.change_vartype: rows/energies/labels not as specified"
-        if not c["inplace"] and (ss.vartype is not gen.VT[c["vartype"]] or ss.record.tobytes() != snap.tobytes()):
+        if not c["inplace"] and not c.get("future") and (ss.vartype is not gen.VT[c["vartype"]] or ss.record.tobytes() != snap.tobytes()):
             py_fail = "SampleSet.change_vartype(inplace=False) modified the receiver"
         return {"coq": None, "py_fail": py_fail, "features": feats, "nontrivial": len(c["rows"]) > 0 and len(labels) > 0}
 
@@ -253,6 +267,11 @@ def run_case(c):
                 elif name == "set_quadratic":
                     view.set_quadratic(dec_label(op[1]), dec_label(op[2]), float(F(op[3])))
                     o = f"(VSetQuad {cnat(T.idx(op[1]))} {cnat(T.idx(op[2]))} {cq(F(op[3]))})"
+                elif name == "add_eq":
+                    view.add_linear_equality_constraint([(dec_label(l), float(F(b))) for l, b in op[1]],
+                                                        float(F(op[2])), float(F(op[3])))
+                    terms = clist([cpair(cnat(T.idx(l)), cq(F(b))) for l, b in op[1]])
+                    o = f"(VAddEq {terms} {cq(F(op[2]))} {cq(F(op[3]))})"
                 elif name == "offset":
                     view.offset = float(F(op[1]))
                     o = f"(VSetOff {cq(F(op[1]))})"
